@@ -34,7 +34,22 @@ def schema_terms():
         ("any", (INT, STR)), S("bytes"),
         ("dict", (("a", False, INT), ("b", False, S("str", ln(2)))), False), NONE,
         ("list", ("elems", (INT, E)), ()), ("alias", "A", ("any", (S("bool"), NONE))),
+        # derived schemas: the key order of what make_required / + / % build decides which draw
+        # goes to which key
+        ("mkreq", _D3, None), ("mkreq", _D3, ("c", "a")), ("add", _D3, ("dict", (("z", False, INT),), False)),
+        ("subst", _D3, {"b": "xy"}),
+        # flags (whatever the generator makes of them, it must make the same thing every time)
+        rx("(?i)ab"), rx("(?i:a)b[a-b]"),
+        # a schema whose generation fails half-way (unsupported \s inside a list): what follows
+        # it in a sequence must not depend on how far it got
+        ("list", ("typed", rx(r"\s+")), (ln(2),)),
+        # lists whose length is left to the generator's defaults, flat and nested
+        ("list", ("typed", S("bool")), ()), ("list", ("typed", ("list", ("typed", INT), ())), (ln(1, 2),)),
     ]
+
+
+_D3 = ("dict", (("a", True, INT), ("b", True, S("str", ln(2))), ("c", True, S("bool")),
+                ("d", True, S("int", ("min", 0), ("max", 7)))), False)
 
 
 def sequences(tier):
@@ -65,9 +80,15 @@ def main():
         for k in seeds:
             digests, unstable = {}, []
             for idx, seq in seqs:
+                def gen(i):
+                    try:
+                        return fake(schemas[i])
+                    except Exception as e:  # noqa: BLE001 - a failing schema is part of the sequence
+                        return ("raised", type(e).__name__)
+
                 def once():
                     rnd.set_seed(k)
-                    return src([fake(schemas[i]) for i in seq])
+                    return src([gen(i) for i in seq])
                 a = once()
                 if once() != a:
                     unstable.append(idx)
